@@ -60,6 +60,10 @@ pub fn sig_name(s: i32) -> &'static str {
         libc::SIGTERM => "TERM",
         libc::SIGINT => "INT",
         libc::SIGQUIT => "QUIT",
+        libc::SIGSYS => "SYS",
+        34 => "RTMIN",
+        63 => "RTMAX-1",
+        64 => "RTMAX",
         _ => "SIG?",
     }
 }
@@ -71,6 +75,15 @@ pub fn sig_name(s: i32) -> &'static str {
 pub struct RawInfo(pub [u8; 128]);
 
 pub fn make_info(sig: i32, tag: u64) -> RawInfo {
+    make_info_code(sig, tag, -1) // SI_QUEUE
+}
+
+/// The si_code values the iterator engine rotates through: every cause class the origin
+/// extractor distinguishes plus codes it must not recognise for a non-SIGCHLD signal
+/// (1..6 are CLD_* for SIGCHLD but POLL_IN.. / ILL_.. / application-defined for others).
+pub const SI_CODES: [i32; 12] = [-1, 0, -6, 0x80, -1, -2, 1, 3, 6, -3, 7, -1];
+
+pub fn make_info_code(sig: i32, tag: u64, code: i32) -> RawInfo {
     let mut b = [0u8; 128];
     let mut x = tag.wrapping_mul(0x9E3779B97F4A7C15) | 1;
     for i in 32..128 {
@@ -81,7 +94,7 @@ pub fn make_info(sig: i32, tag: u64) -> RawInfo {
     }
     b[0..4].copy_from_slice(&sig.to_ne_bytes());
     b[4..8].copy_from_slice(&0i32.to_ne_bytes());
-    b[8..12].copy_from_slice(&(-1i32).to_ne_bytes()); // SI_QUEUE
+    b[8..12].copy_from_slice(&code.to_ne_bytes());
     let pid = unsafe { libc::getpid() };
     let uid = unsafe { libc::getuid() };
     b[16..20].copy_from_slice(&pid.to_ne_bytes());
@@ -108,6 +121,16 @@ pub fn set_disposition(sig: i32, handler: usize, siginfo: bool) {
         let mut sa: libc::sigaction = std::mem::zeroed();
         sa.sa_sigaction = handler;
         sa.sa_flags = if siginfo { libc::SA_SIGINFO } else { 0 };
+        let r = libc::sigaction(sig, &sa, std::ptr::null_mut());
+        assert_eq!(r, 0, "sigaction set-up failed");
+    }
+}
+
+pub fn set_disposition_flags(sig: i32, handler: usize, flags: i32) {
+    unsafe {
+        let mut sa: libc::sigaction = std::mem::zeroed();
+        sa.sa_sigaction = handler;
+        sa.sa_flags = flags;
         let r = libc::sigaction(sig, &sa, std::ptr::null_mut());
         assert_eq!(r, 0, "sigaction set-up failed");
     }
@@ -177,6 +200,7 @@ pub fn fill_fast(fd: i32) {
 
 /// Number of bytes (or datagrams) readable right now, draining them.
 pub fn drain_fd(fd: i32) -> usize {
+    let _g = sim::ShimGuard::new(); // harness I/O: no injected system-call faults
     let mut n = 0usize;
     let mut buf = [0u8; 4096];
     loop {
